@@ -2,10 +2,11 @@ _TINY = ["ARDUINOJSON_SLOT_ID_SIZE=1", "ARDUINOJSON_POOL_CAPACITY=4", "ARDUINOJS
 
 def _hx_levels(depth, alphabet, defs, cap=0, extra=None):
     jobs = []
+    tag = "%s%d_%s" % (alphabet, depth, "_".join(d.split("=")[-1] for d in defs) or "default")
     for lvl in range(1, depth + 1):
         jobs.append({"src": "checks/hx.cpp", "mode": "bfs", "defs": list(defs), "deps": ["checks/hx.hpp", "checks/hx_fault.hpp", "checks/hx_limits.hpp"],
                      "fallback_defs": ["VERIF_NO_INSPECTOR"],
-                     "args": ["--level=%d" % lvl, "--depth=%d" % depth, "--alphabet=%s" % alphabet, "--cap=%d" % cap] + (extra or [])})
+                     "args": ["--level=%d" % lvl, "--depth=%d" % depth, "--alphabet=%s" % alphabet, "--cap=%d" % cap, "--tag=" + tag] + (extra or [])})
     return jobs
 
 _HX_ASSUME = ["the ordered-tree model of engine/model.hpp + checks/hx.hpp (DESIGN Appendix F) states the public contract",
